@@ -65,9 +65,18 @@ def gen_case(rng, focus=None):
             "hide": rng.choice([True, True, False, "out", "err", "both", None]), "explicit": rng.random() < 0.4}
 
 
+def hidden_flags(c):
+    """(stdout hidden, stderr hidden): `hide` only applies to streams that were not given explicitly"""
+    if c.get("explicit", True):
+        return False, False
+    h = c.get("hide")
+    return h in (True, "both", "out", "stdout"), h in (True, "both", "err", "stderr")
+
+
 def model_line(c):
+    ho, he = hidden_flags(c)
     flags = ",".join(str(int(x)) for x in (c["has_in"], c["has_t"], c["warn"], c["pty"])) + \
-        ",%d,%d,%d,%d,%d" % (c["echo_opt"], int(c["in_tty"]), int(c["hold"]), int(c["start_fails"]), c["read_size"])
+        ",%d,%d,%d,%d,%d,%d,%d" % (c["echo_opt"], int(c["in_tty"]), int(c["hold"]), int(c["start_fails"]), c["read_size"], int(ho), int(he))
     ins = ",".join("~" if x == "~" else "$" if x == "$" else hexs(x.encode()) for x in (c["ins"] or []))
     return "|".join([flags, ",".join(c["out"]), ",".join(c["err"]), ins, ",".join(c["sched"])])
 
@@ -119,9 +128,9 @@ def impl_obs(c, o):
 
 def model_obs(line_out):
     f = line_out.split("|")
-    if len(f) != 12:
+    if len(f) != 14:
         return {"bad": line_out}
-    return {"outcome": f[0], "stdout": f[3], "stderr": f[4], "child_stdin": f[5], "closes": f[6], "kills": f[7],
+    return {"mirror_out": f[12], "mirror_err": f[13], "outcome": f[0], "stdout": f[3], "stderr": f[4], "child_stdin": f[5], "closes": f[6], "kills": f[7],
             "kills_after_return": f[8], "main": f[10], "alive": f[11], "echoed": f[9], "cap_out_hex": f[1], "cap_err_hex": f[2]}
 
 
@@ -150,6 +159,14 @@ def run_cases(ctx, out, cases, oracle=None):
             mo = model_obs(m)
             out.traces += 1
             diff = [k for k in COMPARED if mo.get(k) != io_[k]]
+            # mirrors: stderr always; stdout unless the echo of stdin shares the stream
+            io_["mirror_err"] = codes(o["mirror"][1])
+            if mo.get("mirror_err") != io_["mirror_err"] and not c["start_fails"]:
+                diff.append("mirror_err")
+            if not c["has_in"]:
+                io_["mirror_out"] = codes(o["mirror"][0])
+                if mo.get("mirror_out") != io_["mirror_out"] and not c["start_fails"]:
+                    diff.append("mirror_out")
             if not diff and c["hide"] in (True, "out", "both") and not c.get("explicit", True) and c["has_in"] and not c["start_fails"]:
                 # stdout hidden: the out stream shows exactly the echoed input
                 if codes(o["mirror"][0]) != codes(bytes.fromhex(mo["echoed"]).decode("utf-8", "replace")):
